@@ -131,3 +131,42 @@ Section Read.
     | _ => None
     end.
 End Read.
+
+(* ---------- independent reading of the TYPED text of a state (State.typed_serialize, wave 3) ----------
+   "((= (f a - t b - t) 1.0) ... (p a - t) ...)": every argument is followed by "- <type>"; dropping the types gives
+   the items of the untyped text *)
+Fixpoint untype (fuel : nat) (l : list sexp) : option (list sexp) :=
+  match fuel with
+  | O => None
+  | S n =>
+      match l with
+      | [] => Some []
+      | Atom a :: Atom d :: Atom _ :: r =>
+          if String.eqb d "-" then option_map (fun rs => Atom a :: rs) (untype n r) else None
+      | _ => None
+      end
+  end.
+
+Definition untype_item (e : sexp) : option sexp :=
+  match e with
+  | SList (Atom h :: rest) =>
+      if String.eqb h "=" then
+        match rest with
+        | [SList (Atom f :: args); v] => option_map (fun a => SList [Atom h; SList (Atom f :: a); v]) (untype (S (List.length args)) args)
+        | _ => None
+        end
+      else option_map (fun a => SList (Atom h :: a)) (untype (S (List.length rest)) rest)
+  | _ => None
+  end.
+
+Fixpoint untype_items (l : list sexp) : option (list sexp) :=
+  match l with
+  | [] => Some []
+  | e :: r => match untype_item e, untype_items r with Some x, Some xs => Some (x :: xs) | _, _ => None end
+  end.
+
+Definition read_typed_state (num : string -> option float) (e : sexp) : option state :=
+  match e with
+  | SList items => match untype_items items with Some l => read_items num l | None => None end
+  | _ => None
+  end.
